@@ -26,8 +26,8 @@ func c01(p *P) {
 	p.gConvergeFilter("C01.R4")
 	p.gReceiveGuards("C01.R5")
 	p.gValidatedOnly("C01.R5")
-	p.include(c08, map[string]string{"C08.R1": "C01.R6", "C08.R2": "C01.R6b"}, map[string]string{"C01.R6": "strong-quorum threshold exact", "C01.R6b": "quorum operands from one table"})
-	p.include(c05, map[string]string{"C05.R4": "C01.R7", "C05.R5": "C01.R7b", "C05.R6": "C01.R7c", "C05.R2": "C01.R7d"}, map[string]string{"C01.R7": "justification validation", "C01.R7b": "justification signature", "C01.R7c": "validation cache cannot vouch for a different value", "C01.R7d": "per-phase validity table"})
+	p.include(c08, map[string]string{"C08.R1": "C01.R6", "C08.R2": "C01.R6b", "C08.R3": "C01.R6c", "C08.R4": "C01.R6d"}, map[string]string{"C01.R6": "strong-quorum threshold exact", "C01.R6b": "quorum operands from one table", "C01.R6c": "single threshold", "C01.R6d": "vote weights: exact scaling of the power table"})
+	p.include(c05, map[string]string{"C05.R4": "C01.R7", "C05.R5": "C01.R7b", "C05.R6": "C01.R7c", "C05.R2": "C01.R7d", "C05.R1": "C01.R7e", "C05.R9": "C01.R7f"}, map[string]string{"C01.R7": "justification validation", "C01.R7b": "justification signature", "C01.R7c": "validation cache cannot vouch for a different value", "C01.R7d": "per-phase validity table", "C01.R7e": "message accepted only past every check (sender, power, signature, justification)", "C01.R7f": "committee cache"})
 }
 
 func c02(p *P) {
@@ -46,7 +46,8 @@ func c02(p *P) {
 	p.gConvergeFilter("C02.R3")
 	p.gDecidePaths("C02.R4")
 	p.gBeginInstance("C02.R5")
-	p.include(c05, map[string]string{"C05.R2": "C02.R6", "C05.R4": "C02.R6b", "C05.R6": "C02.R6c"}, map[string]string{"C02.R6": "bottom invalid for QUALITY/CONVERGE/DECIDE", "C02.R6b": "justification validation", "C02.R6c": "validation cache cannot vouch for a different value"})
+	p.include(c05, map[string]string{"C05.R2": "C02.R6", "C05.R4": "C02.R6b", "C05.R6": "C02.R6c", "C05.R1": "C02.R6d", "C05.R5": "C02.R6e"}, map[string]string{"C02.R6": "bottom invalid for QUALITY/CONVERGE/DECIDE", "C02.R6b": "justification validation", "C02.R6c": "validation cache cannot vouch for a different value", "C02.R6d": "message accepted only past every check", "C02.R6e": "justification signature"})
+	p.include(c08, map[string]string{"C08.R1": "C02.R7", "C08.R4": "C02.R7b"}, map[string]string{"C02.R7": "strong-quorum threshold exact", "C02.R7b": "vote weights: exact scaling of the power table"})
 }
 
 func c03(p *P) {
@@ -67,7 +68,8 @@ func c03(p *P) {
 	p.gDecidePaths("C03.R5b")
 	r.Rule("C03.R5b", "termination only from a strong DECIDE quorum with the justification just built", 16)
 	p.include(c05, map[string]string{"C05.R6": "C03.R6", "C05.R1": "C03.R6b"}, map[string]string{"C03.R6": "validation cache read-only on lookup, written after all checks", "C03.R6b": "message accept gated by all checks"})
-	p.include(c08, map[string]string{"C08.R1": "C03.R7"}, map[string]string{"C03.R7": "strong-quorum threshold exact"})
+	p.include(c08, map[string]string{"C08.R1": "C03.R7", "C08.R4": "C03.R7b"}, map[string]string{"C03.R7": "strong-quorum threshold exact", "C03.R7b": "scaled power (zero-power members) computed exactly"})
+	p.include(c04, map[string]string{"C04.R2": "C03.R8", "C04.R1": "C03.R8b"}, map[string]string{"C03.R8": "certificate validation checks the signature the way the decision was built (whole table's key set, DECIDE payload, same threshold)", "C03.R8b": "certificate validation gates"})
 }
 
 func c07(p *P) {
@@ -96,6 +98,11 @@ func c07(p *P) {
 	r.Rule("C07.R8", "decision paths", 16)
 	p.gJustificationSites("C07.R9")
 	r.Rule("C07.R9", "justifications aggregate what they claim", 8)
+	p.gBeginInstance("C07.R10")
+	r.Rule("C07.R10", "instance start: host chain truncated to the maximum, then validated; never an error for a long honest chain", 8)
+	p.gReceiveGuards("C07.R11")
+	r.Rule("C07.R11", "delivery guards of receiveOne", 20)
+	p.include(c08, map[string]string{"C08.R1": "C07.R12"}, map[string]string{"C07.R12": "strong-quorum threshold exact (\"never commits bottom while holding a strong PREPARE quorum\")"})
 }
 
 // gValidatedOnly: only validated messages reach the state machine (type-level + call graph).
